@@ -40,8 +40,13 @@ var _ http.Header
 //@     k == "Access-Control-Allow-Credentials" || (len(k) >= 14 && k[:14] == "Sec-Websocket-")
 
 // MergeHeader: protected headers of a are untouched, Set-Cookie values accumulate, every other
-// header of b replaces the one in a, headers not in b are untouched.
+// header of b replaces the one in a, headers not in b are untouched. A name that is not a
+// well-formed header field name is never taken over: such a name (say one embedding CR LF and a
+// protected name) is written verbatim by a WebSocket upgrade, and would get past the comparison
+// of names. The relation "is a well-formed field name" is named by an uninterpreted function
+// (definition on isValidHeaderName); that it excludes control characters, space and colon is proved there.
 //@ func MergeHeader
+//@   ensures[C17] forall k string :: has(a, k) && (!old(has(a, k)) || a[k] != old(a[k])) ==> ufBool_fieldname(k)
 //@   requires b != nil ==> a != nil
 //@   assumes a != b
 // (the header names of b are canonical: guaranteed by the decoders above, assumed here)
